@@ -166,7 +166,17 @@ COMMENT = {
     tiers={"quick": {"timeout": 900, "K": {"KLO": -1, "KHI": 6}, "shards": product(mode=list(COMMENT))}},
 )
 def modes_run(mode: str, k: int, b1: bool, b3: bool, b5: bool) -> Tuple[List[int], List[int], Optional[List[int]]]:
-    p, pr = fresh(COMMENT[mode] + MATCH, recs_of(b1, b3, b5))
+    if mode == "keep" and b5:
+        # the caller looks at the setting before parsing: the comment must still take effect afterwards
+        StubReader.RECORDS = recs_of(b1, b3, b5)
+        with NoTracing():
+            p = CsvPath(print_default=False)
+            pr = CapPrinter()
+            p.add_printer(pr)
+            _seen_before = p.unmatched_available
+            p.parse(COMMENT[mode] + MATCH)
+    else:
+        p, pr = fresh(COMMENT[mode] + MATCH, recs_of(b1, b3, b5))
     p.variables["k"] = k
     reads0 = StubReader.READS
     got = [int(l[0]) for l in p.collect()]
@@ -181,25 +191,26 @@ def modes_run(mode: str, k: int, b1: bool, b3: bool, b5: bool) -> Tuple[List[int
 @ob(
     "C15",
     "O3-print-mode",
-    post="_ == ((0 if nodefault else 1), 1, 6, 1)",
+    post="_ == ((0 if nodefault else 1), 1, 6, (1 if std else 0))",
     bound="print-mode no-default vs default (symbolic): the standard-out printer is removed; a user-added printer and a LogPrinter "
-    "(a subclass of the standard-out printer) stay and receive every print",
+    "(a subclass of the standard-out printer) stay and receive every print, whether or not a standard-out printer was there to remove (symbolic)",
     encodes=["csvpath/modes/print_mode.py:PrintMode.update_printers", "csvpath/csvpath.py:CsvPath.print"],
     tiers={"quick": {"timeout": 300}},
 )
-def print_mode(nodefault: bool) -> Tuple[int, int, int, int]:
+def print_mode(nodefault: bool, std: bool) -> Tuple[int, int, int, int]:
     import logging
     from csvpath.util.printer import StdOutPrinter, LogPrinter
 
     StubReader.RECORDS = recs_of(False, False, False)
     with NoTracing():
-        p = CsvPath(print_default=True)
+        p = CsvPath(print_default=std)  # std False: the caller's printers only, no standard-out printer to remove
         for pr_ in p.printers:
             if isinstance(pr_, StdOutPrinter):
                 pr_.print = lambda s: None  # keep the harness output quiet
-        lg = logging.getLogger("verif-null")
-        lg.disabled = True
-        p.add_printer(LogPrinter(lg))
+        if std:
+            lg = logging.getLogger("verif-null")
+            lg.disabled = True
+            p.add_printer(LogPrinter(lg))
         cap = CapPrinter()
         p.add_printer(cap)
         comment = "~ print-mode: no-default ~ " if nodefault else "~ print-mode: default ~ "
